@@ -954,7 +954,10 @@ class ConstantReferenceApplier(TreeListener):
 
         if tree.child:
             try:
-                self.extra_symbols[-1][str(tree)] = self.classes[-1].find_constant_symbol(tree)
+                # The symbol is renamed and modified when flattening, so take a copy of the tree's symbol
+                self.extra_symbols[-1][str(tree)] = copy.deepcopy(
+                    self.classes[-1].find_constant_symbol(tree)
+                )
             except (
                 KeyError,
                 ast.ClassNotFoundError,
